@@ -25,6 +25,7 @@ func c01Layers(c *Ctx) []sweepLayer {
 			{"L3", GenOpts{OneGate: true, LeafSet: 2, Reps: true}, 3, four},
 			{"scale", GenOpts{Scale: true, ScaleThorough: true}, 0, coveringFlags8(ns)},
 			{"spellings", GenOpts{LeafSet: 1, Spellings: true, FieldNames: []string{"fld", "pr\u00e9nom/x", "\U0001F600k", "owner", "tags", "qty"}}, 1, four},
+			rootedLayers(true, four)[0], rootedLayers(true, four)[1],
 		}
 	}
 	return []sweepLayer{
@@ -33,6 +34,7 @@ func c01Layers(c *Ctx) []sweepLayer {
 		{"L1", GenOpts{OneGate: true, LeafSet: 1}, 1, coveringFlags8(ns)},
 		{"L2", GenOpts{OneGate: true, LeafSet: 2, Slots: []int{0, 4, 12}}, 2, four[:2]},
 		{"scale", GenOpts{Scale: true}, 0, four},
+		rootedLayers(false, four)[0], rootedLayers(false, four)[1],
 		{"spellings", GenOpts{LeafSet: 2, OneGate: true, Spellings: true, FieldNames: []string{"fld", "pr\u00e9nom/x", "\U0001F600k", "owner", "tags", "qty"}}, 0, four},
 	}
 }
@@ -164,7 +166,7 @@ func c01Run(c *Ctx) {
 func init() {
 	register(&PropDef{
 		ID: "C01", Level: "exploration",
-		Rule:        "lines derived from the labelled grammar G by the choice-sequence explorer: L0 = 0 deviations (all slots x gates x containers x leaf kinds) under all 2^7 flag sets; L1 = <=1 non-default production over the full vocabulary; L2 = <=2; L3 = <=3 over class representatives (thorough); every SECRET leaf carries a unique canary; oracle = canary / number literal / true / remote address absent from the emitted line; plus one run of the pristine CLI per flag set over the L0 corpus compared line by line with the in-process output. distinct = distinct input lines inside the claim with at least one SECRET leaf" + scaleRule + twinRule,
+		Rule:        "lines derived from the labelled grammar G by the choice-sequence explorer: L0 = 0 deviations (all slots x gates x containers x leaf kinds) under all 2^7 flag sets; L1 = <=1 non-default production over the full vocabulary; L2 = <=2; L3 = <=3 over class representatives (thorough); every SECRET leaf carries a unique canary; oracle = canary / number literal / true / remote address absent from the emitted line; plus one run of the pristine CLI per flag set over the L0 corpus compared line by line with the in-process output. distinct = distinct input lines inside the claim with at least one SECRET leaf" + scaleRule + twinRule + rootedRule,
 		Assumptions: []string{"the label table of G (GRAMMAR.md) is the trusted base", "command verbs the tool does not declare are out of scope"},
 		Run:         c01Run,
 	})
